@@ -155,6 +155,7 @@ Definition apply_op (par : bool) (g : op) (st : state) (ts cs : list N) : outcom
       end
   | OpMatch c s e1 e2 => v1 (fun _ =>
       if t =? n - 1 then Err (InvalidQubitIndex t n)
+      else if existsb (N.eqb (t + 1)) cs then Err (OverlappingControlAndTargetQubits (t + 1) (t + 1))
       else ret (apply_match par c s e1 e2 n t cs v))
   end.
 
